@@ -116,7 +116,59 @@ func (c *FuncCtx) evalCall(st *State, x *ast.CallExpr) []*Val {
 	return nil
 }
 
+// flattenSel renders a.b.c as "a.b.c" ("" if it is not a pure selector chain).
+func flattenSel(e ast.Expr) string {
+	switch y := e.(type) {
+	case *ast.Ident:
+		return y.Name
+	case *ast.SelectorExpr:
+		if p := flattenSel(y.X); p != "" {
+			return p + "." + y.Sel.Name
+		}
+	}
+	return ""
+}
+
+func (c *FuncCtx) callGhost(st *State, con *Contract, key string, x *ast.CallExpr) []*Val {
+	var ps, rs []*types.Var
+	for _, fld := range con.Decl.Type.Params.List {
+		t := c.resolveSpecType(fld.Type)
+		for _, n := range fld.Names {
+			ps = append(ps, types.NewVar(token.NoPos, nil, n.Name, t))
+		}
+	}
+	if con.Decl.Type.Results != nil {
+		for _, fld := range con.Decl.Type.Results.List {
+			t := c.resolveSpecType(fld.Type)
+			for _, n := range fld.Names {
+				rs = append(rs, types.NewVar(token.NoPos, nil, n.Name, t))
+			}
+		}
+	}
+	sig := types.NewSignatureType(nil, nil, nil, types.NewTuple(ps...), types.NewTuple(rs...), false)
+	var args []*Val
+	for i, a := range x.Args {
+		args = append(args, c.coerce(st, c.eval(st, a), ps[i].Type()))
+	}
+	return c.applyContract(st, con, sig, nil, args, x.Pos(), key)
+}
+
 func (c *FuncCtx) callSelector(st *State, f *ast.SelectorExpr, x *ast.CallExpr) []*Val {
+	// a ghost function named by a dotted key (only in specifications)
+	if c.inSpec(st) {
+		if key := flattenSel(f); key != "" {
+			root := key[:strings.IndexByte(key, '.')]
+			if _, bound := st.bound[root]; !bound {
+				if _, isType := c.eng.pkg.Types.Scope().Lookup(root).(*types.TypeName); isType {
+					if con := c.eng.spec.Contracts[key]; con != nil && con.Assumed {
+						if _, real := c.eng.funcs[key]; !real {
+							return c.callGhost(st, con, key, x)
+						}
+					}
+				}
+			}
+		}
+	}
 	// package function?
 	if id, ok := f.X.(*ast.Ident); ok {
 		if _, bound := st.bound[id.Name]; !bound {
